@@ -222,7 +222,12 @@ def run(ctx, chk):
             continue
         nested = [e for e in pa.events if e.kind == "call" and e.ckind == "lib" and (e.callee.startswith("cbor_encode_") or e.callee.startswith("cbor_serialize"))]
         v = strip(nested[0].args[0]) if nested else None
-        ok = len(nested) == 2 and nested[0].callee == "cbor_encode_tag" and v[0] == "call" and v[1] == "cbor_tag_value" and nested[1].callee == "cbor_serialize"
+        value_off = prog.field_offset("cbor_item_t", "metadata") + prog.field_offset("_cbor_tag_metadata", "value")
+        # the tag number: the accessor's result, or the field the accessor reads
+        is_value = v is not None and ((v[0] == "call" and v[1] == "cbor_tag_value" and
+                                       any(e.kind == "call" and e.res == v and e.args[0] == ("arg", 0) for e in pa.events)) or
+                                      (v[0] == "ld" and v[1] == ("arg", 0) and v[2] == value_off))
+        ok = len(nested) == 2 and nested[0].callee == "cbor_encode_tag" and is_value and nested[1].callee == "cbor_serialize"
         child = nested[1].args[0] if ok else None
         okc = ok and ((child[0] == "ld" and child[1] == ("arg", 0) and child[2] == tagged_off) or
                       (child[0] == "call" and child[1] in ("cbor_move", "cbor_tag_item")))
